@@ -9,6 +9,16 @@ PROVED = ["_responsible_party_rule", "_associated_responsible_party_rule", "_con
           "_individual_name_rule", "_other_entity_rule", "_title_rule", "_description_rule"]
 
 
+def task_tree_order():
+    from pyvc.task import Task
+    from contracts.prelude import make_world
+    from contracts import c19_eval
+    from metapype.eml import evaluate
+    w = make_world()
+    con = c19_eval.install_tree_order(w)
+    return Task(w, evaluate.tree, con, name="C19/evaluate.tree[document order]").run()
+
+
 def task_lemma():
     """L-fold-filter (induction over the child index; base and step discharged by z3)"""
     from pyvc.task import TaskResult
@@ -378,6 +388,7 @@ def main(tier, seed):
     specs = [("props.C19", "task", {"which": w}) for w in PROVED + ["node", "tree", "_datatable_rule"]]
     # _dataset_rule has ~450 paths: they are partitioned by the decisions 1..4 (abstract present / has text / short / coverage present) over 16 tasks
     specs.append(("props.C19", "task_lemma", {}))
+    specs.append(("props.C19", "task_tree_order", {}))
     shards = [("props.C19", "task", {"which": "_dataset_rule", "shard": [1, list(bits)]}) for bits in itertools.product((True, False), repeat=4)]
     results = common.run_tasks(specs, procs=16) + common.run_sharded(shards, "C19._dataset_rule")
     b = bounded(tier, seed)
@@ -388,4 +399,6 @@ def main(tier, seed):
         "the loops that break), the keyword total is a fold over the keywordSet children (related to the code's fold over its filtered list by "
         "the lemma fold-filter, proved by induction), and the path space of _dataset_rule is partitioned over 16 tasks by four early decisions",
         "word counts are integer comparisons on the uninterpreted functions normalize_text / py_split_count (A-str); get_text_content enters by name",
-        "BOUNDED, not proved: the concatenation order of evaluate.tree, and get_text_content's collected text"])
+        "evaluate.tree appends exactly the per-node lists concatenated in document order (ghost warning_owner, unfolded one level; evaluate.node "
+        "enters by contract) and keeps earlier entries",
+        "BOUNDED, not proved: get_text_content's collected text"])
